@@ -330,6 +330,28 @@ def environment(ctx, prog, X):
                 okv = v[0] == 'phi' and all(strip_casts(x)[0] == 'call' and strip_casts(x)[1] in ('strtok', 'strtok_r')
                                             for x, _ in P.phi_inputs(v))
     ctx.ob('C22.env', 'each environment token becomes one argument', f.loc(in_env[0]) if in_env else f.loc(), okv, '')
+    # ... and every token does: nothing but "variable is set" and "there is another token" guards the append
+    if ok:
+        extra = []
+        for b, e, pol in rules.guards(f, P, in_env[0].block.name):
+            c, p2 = peel_cond(e)
+            cn = cmp_norm(c)
+            x = strip_casts(cn[1]) if cn else strip_casts(c)
+
+            def is_tok(v, depth=0):
+                v = strip_casts(v)
+                if v[0] == 'call' and v[1] in ('strtok', 'strtok_r', 'getenv'):
+                    return True
+                if v[0] == 'phi' and depth < 3:
+                    return all(is_tok(y, depth + 1) for y, _ in P.phi_inputs(v))
+                return False
+            if is_tok(x) and (cn is None or cn[2] in (('null',), ('const', 0))):
+                continue
+            if cn and cn[2][0] == 'const' and x[0] == 'phi' and X.names.get(x[1]) == 'ofs':
+                continue
+            extra.append(render(e)[:80])
+        ctx.ob('C22.env', 'no environment token is skipped: the append is guarded only by "variable set" and "another '
+               'token exists"', f.loc(in_env[0]), not extra, 'additional conditions: %s' % extra)
     # argv loop starts at 1
     oka = False
     if ok:
